@@ -29,6 +29,20 @@ pub struct TempFileGuard {
     path: Option<PathBuf>,
 }
 
+/// Working-file path used while rebuilding `dest`: the complete file name with `.sy.tmp`
+/// appended, in the same directory.
+///
+/// `Path::with_extension` must not be used for this: it replaces the extension, so `a.txt`
+/// and `a.bin` (or a user's own `a.sy.tmp`) would all map to the one working file `a.sy.tmp`.
+pub fn temp_path_for(dest: &Path) -> PathBuf {
+    let mut name = dest
+        .file_name()
+        .map(|n| n.to_os_string())
+        .unwrap_or_default();
+    name.push(".sy.tmp");
+    dest.with_file_name(name)
+}
+
 impl TempFileGuard {
     /// Create a new guard for a temporary file path.
     ///
